@@ -441,7 +441,7 @@ func (h *H) logOut(o sim.Out, failed bool) *sim.Dict {
 // settle waits until everything the injected datagrams caused has happened, then logs callbacks,
 // written datagrams and a Quiesce line. Returns the decoded datagrams.
 func (h *H) settle() []*sim.Dict {
-	if !sim.WaitQuiet(10 * time.Second) {
+	if !sim.WaitQuiet(60 * time.Second) {
 		fail("reply/callback goroutines did not finish: %v", sim.Goroutines())
 	}
 	return h.flush(true)
